@@ -392,7 +392,12 @@ INT_AXES = [[[1, 0, 0], [0, 1, 0], [0, 0, 1]], [[1, 1, 0], [-1, 1, 0], [0, 0, 1]
             [[1, 2, 2], [2, 1, -2], [-2, 2, -1]], [[1, 0, 1], [0, 2, 0], [-1, 0, 1]]]
 BOXES = [None, [[4.0, 0, 0], [0, 4.0, 0], [0, 0, 4.0]], [[3.0, 0, 0], [0, 3.0, 0], [0, 0, 5.0]],
          [[3.0, 0, 0], [0, 4.5, 0], [0, 0, 5.25]], [[3.0, 0, 0], [-1.5, 2.598076211353316, 0], [0, 0, 5.0]],
-         [[3.0, 0, 0], [0.5, 2.5, 0], [0.25, -0.375, 4.0]]]
+         [[3.0, 0, 0], [0.5, 2.5, 0], [0.25, -0.375, 4.0]],
+         # strongly sheared / not reduced (a + b - ... shorter than the edges), flat, rotated (not LAMMPS-normal),
+         # axis-permuted, left-handed
+         [[3.0, 0, 0], [8.5, 2.5, 0], [7.25, -6.375, 4.0]], [[3.0, 0, 0], [0, 40.0, 0], [0, 0, 0.25]],
+         [[1.8, -2.4, 0.0], [2.3, 1.1, 0.0], [0.45, 0.025, 4.0]], [[0, 0, 4.0], [3.0, 0, 0], [0, 2.5, 0]],
+         [[3.0, 0, 0], [0, 2.5, 0], [0, 0, -4.0]]]
 MILLER = [([1, -1, 0], [1, 1, 1]), ([1, 1, -2], [1, 1, 1]), ([1, 0, -1], [1, 1, 1]), ([0, 0, 1], [1, 1, 0]),
           ([1, 1, 1], [1, -1, 0]), ([1, 0, 0], [0, 1, 0]), ([0, 1, 0], [0, 0, 1]), ([1, -1, 1], [1, 1, 0]),
           ([1, 1, 0], [0, 0, 1]), ([2, -1, 0], [1, 2, 1]), ([1, 2, -3], [1, 1, 1]), ([1, 0, 0], [0, 1, 1])]
@@ -448,7 +453,7 @@ def gen_scales(rng):
     return cs, ls
 
 
-def gen_spec(rng, cls=None, route=None, mn=None, aniso=1.0, near_identity=False, four_index=False, scales=None):
+def gen_spec(rng, cls=None, route=None, mn=None, aniso=1.0, near_identity=False, four_index=False, scales=None, tiny=None, tol=None):
     cls = cls or rng.choice(CLASSES)
     route = route or rng.choice(['default', 'transform', 'transform', 'axes', 'miller', 'miller'])
     if near_identity:
@@ -456,7 +461,9 @@ def gen_spec(rng, cls=None, route=None, mn=None, aniso=1.0, near_identity=False,
     if four_index:
         route = 'miller'
     scale, ls = scales if scales is not None else gen_scales(rng)
-    spec = {'cls': cls, 'cij': gen_cij(rng, cls, aniso=aniso, scale=scale, tiny=rng.random() < 0.35), 'route': route, 'tol': rng.choice(TOLS),
+    tiny = (rng.random() < 0.35) if tiny is None else tiny
+    spec = {'cls': cls, 'cij': gen_cij(rng, cls, aniso=aniso, scale=scale, tiny=tiny), 'route': route,
+            'tol': rng.choice(TOLS) if tol is None else tol,
             'cart_axes': False, 'box': None, 'transform': None, 'xi_uvw': None, 'slip_hkl': None,
             'cscale': scale, 'lscale': 1.0}
     m, n = gen_mn(rng, mn)
@@ -469,17 +476,21 @@ def gen_spec(rng, cls=None, route=None, mn=None, aniso=1.0, near_identity=False,
             spec['transform'] = _fl(quat_rot(rng.choice(QUATS)))
         else:
             spec['transform'] = _fl(rng.choice(INT_AXES))
-        spec['box'] = rng.choice([None, None, BOXES[1], BOXES[3], BOXES[5]])
+        spec['box'] = rng.choice([None, None, BOXES[1], BOXES[3], BOXES[5], rng.choice(BOXES[6:])])
     elif route == 'default':
         # no orientation argument at all: the Burgers vector is still a crystal vector of the box
-        spec['box'] = rng.choice([None, BOXES[1], BOXES[3], BOXES[5]])
+        spec['box'] = rng.choice([None, BOXES[1], BOXES[3], BOXES[5], rng.choice(BOXES[6:])])
     four = False
     if route == 'miller':
         spec['xi_uvw'], spec['slip_hkl'] = rng.choice(MILLER)
-        spec['box'] = BOXES[4] if four_index else rng.choice(BOXES)
+        # (the left-handed cell only where crystal VECTORS are converted: which way the normal of a plane (hkl) points in a
+        #  left-handed cell — atomman: against h a* + k b* + l c* — is property C16's business)
+        spec['box'] = BOXES[4] if four_index else rng.choice(BOXES[:-1])
         if spec['box'] is BOXES[4] and (four_index or rng.random() < 0.6):
             four = True
             spec['xi_uvw'], spec['slip_hkl'] = rng.choice(MILLER4)
+    if spec['box'] is not None and rng.random() < 0.4:
+        spec['origin'] = rng.choice([[5.0, -3.0, 2.0], [-1e3, 0.0, 0.5], [0.0, 0.0, -7.25]])
     bs = rng.choice([1.0, 2.5, 0.5])
     kind = rng.choice(['edge', 'screw', 'mixed', 'climb', 'any', 'crystal', 'smallcomp'])
     spec['bkind'] = kind
@@ -518,6 +529,8 @@ def apply_length_scale(spec, ls, via_box=False):
     if spec['box'] is not None and (via_box or named):
         # named Burgers vectors are pulled back through the (scaled) cell by resolve_burgers: scale their size too
         spec['box'] = [[v * ls for v in r] for r in spec['box']]
+        if spec.get('origin') is not None:
+            spec['origin'] = [v * ls for v in spec['origin']]
         if named:
             if 'bframe' in spec:
                 spec['bframe'] = [v * ls for v in spec['bframe']]
@@ -666,6 +679,17 @@ def iso_full_oracle(mu, nu, be, bn_, bs, x, y):
     return np.array([um, un, uz]), E, S
 
 
+def _mkbox(spec):
+    """the cell of the problem (with its origin, which no crystal vector may depend on); the unit cube without one."""
+    import atomman as am
+    np = _np()
+    if spec['box'] is None:
+        return am.Box()
+    if spec.get('origin') is not None:
+        return am.Box(vects=np.array(spec['box'], dtype=float), origin=np.array(spec['origin'], dtype=float))
+    return am.Box(vects=np.array(spec['box'], dtype=float))
+
+
 def mn_vectors(spec):
     np = _np()
     ax = {'x': [1.0, 0.0, 0.0], 'y': [0.0, 1.0, 0.0], 'z': [0.0, 0.0, 1.0]}
@@ -692,7 +716,7 @@ def resolve_burgers(spec):
     T = np.eye(3)
     if spec['route'] == 'miller':
         import atomman as am
-        box = am.Box() if spec['box'] is None else am.Box(vects=np.array(spec['box'], dtype=float))
+        box = _mkbox(spec)
         xa = box.vector_crystal_to_cartesian(spec['xi_uvw'])
         xa = xa / np.linalg.norm(xa)
         na = box.plane_crystal_to_cartesian(spec['slip_hkl'])
@@ -711,7 +735,7 @@ def solver_kwargs(spec):
     np = _np()
     kw = {'m': spec['m'], 'n': spec['n'], 'tol': spec['tol'], 'cart_axes': spec['cart_axes']}
     if spec['box'] is not None:
-        kw['box'] = am.Box(vects=np.array(spec['box'], dtype=float))
+        kw['box'] = _mkbox(spec)
     if spec['route'] == 'transform':
         kw['transform'] = np.array(spec['transform'], dtype=float)
     elif spec['route'] == 'axes':
@@ -819,7 +843,7 @@ def _orientation_case(ctx, spec, s):
         ctx.stats.case('mn-accept', (tuple(m), tuple(n)))
         if out != '1':
             ctx.disagree('mn:accept', f'implementation accepted m={m.tolist()}, n={n.tolist()}, model says {out}', rep)
-    box = am.Box() if spec['box'] is None else am.Box(vects=np.array(spec['box'], dtype=float))
+    box = _mkbox(spec)
     if spec['route'] in ('transform', 'axes'):
         ax = np.array(spec['transform'], dtype=float)
         norms = np.linalg.norm(ax, axis=1)
@@ -1240,7 +1264,7 @@ def _dispatch_case(ctx, sw, eps):
                      f'(anisotropy {eps}, is_normal(isotropic): {iso_n}, b = {base.burgers.tolist()}, n = {base.n.tolist()})', rep)
 
 
-def _seq_case(ctx, spec, rng):
+def _seq_case(ctx, spec, rng, force=()):
     """object-level correspondence: ONE Stroh object and ONE coordinate array live through a history of in-place edits
     (of the array, and of the argument objects the caller kept) and reads; the model's `World` (Atomman.C12: the solved
     object holds copies, a read is a function of the object and of the array's current contents) runs the same history;
@@ -1279,8 +1303,9 @@ def _seq_case(ctx, spec, rng):
             got[f] = (stf, None if v is None else np.array(v, copy=True))
         reads.append((cur, eta, ln, got, list(hist)))
     read()
+    todo = list(force)
     for _ in range(rng.choice([4, 6, 8])):
-        kind = rng.choice(['set', 'scale', 'scale', 'shift', 'col', 'all', 'argB', 'argM', 'argN', 'argC', 'argT', 'read'])
+        kind = todo.pop(0) if todo else rng.choice(['set', 'scale', 'scale', 'shift', 'col', 'all', 'argB', 'argM', 'argN', 'argC', 'argT', 'read'])
         if kind == 'set':
             i = rng.randrange(npts)
             x = np.array(gen_points(rng, s, 1, special=False, ls=ls)[0])
@@ -1403,6 +1428,10 @@ def correspond(ctx):
         _cguard(ctx, 'field', spec, lambda: _field_case(ctx, spec, s, gen_points(rng, s, npts, ls=spec['lscale'])))
         if it % 2 == 0:
             _cguard(ctx, 'seq', spec, lambda: _seq_case(ctx, spec, rng))
+        if it % 4 == 1:
+            v = _identity_variants(spec)[(it // 4) % 3]
+            if _outcome(v) == 'ok':
+                _cguard(ctx, 'seq', v, lambda: _seq_case(ctx, v, rng, force=['argC', 'scale']))
     ctx.extra['degenerate_refused'] = n_deg
     ctx.extra['t_stroh_s'] = round(time.time() - t0, 2)
     t1 = time.time()
@@ -2126,9 +2155,11 @@ def _scale_sweep(ctx, spec0, rng, kind):
     if any(np.iscomplexobj(a) for a in (U0, E0, S0, K0)):
         ctx.violate(f'{kind}:field:real', f'{kind}: fields at off-cut points are complex', {'op': 'scale', 'solver': kind, 'spec': spec0, 'ls': 1.0, 'cs': 1.0})
         return
-    combos = [(2.0 ** rng.choice(LEN_EXPS), 1.0), (1.0, 2.0 ** rng.choice(STIFF_EXPS)), (2.0 ** rng.choice(LEN_EXPS), 2.0 ** rng.choice(STIFF_EXPS)),
-              (2.0 ** rng.choice([-34, -30, -27, -40]), 1.0), (2.0 ** rng.choice([27, 30, 34, 60]), 2.0 ** rng.choice([-30, 30, 37])),
-              rng.choice(UNIT_FACTORS), rng.choice(UNIT_FACTORS)]
+    # always: a small and a large length unit, a small and a large stiffness unit (far beyond every absolute 1e-8 / 1e-5 that
+    # may hide in a guard), one mixed pair, one real unit system
+    combos = [(2.0 ** -rng.choice([27, 30, 34, 40, 60, 100]), 1.0), (2.0 ** rng.choice([27, 30, 34, 40, 60, 100]), 1.0),
+              (1.0, 2.0 ** -rng.choice([27, 30, 40, 60, 100, 200])), (1.0, 2.0 ** rng.choice([27, 30, 37, 60, 100, 200])),
+              (2.0 ** rng.choice(LEN_EXPS), 2.0 ** rng.choice(STIFF_EXPS)), rng.choice(UNIT_FACTORS)]
     for ls, cs in combos:
         pow2 = math.frexp(ls)[0] == 0.5 and math.frexp(cs)[0] == 0.5
         spec = apply_stiffness_scale(apply_length_scale(spec0, ls, via_box=rng.random() < 0.5), cs)
@@ -2346,7 +2377,15 @@ def _all_observables(s, P):
     return out
 
 
-def _arg_aliasing(ctx, spec, rng, kind):
+def _identity_variants(spec):
+    """the same medium with the crystal axes ON the solver axes: no orientation argument at all, transform = the exact
+    identity, axes = 2 x identity (normalised to it) — the branch in which 'nothing needs to be rotated'."""
+    base = dict(spec, xi_uvw=None, slip_hkl=None, transform=None, route='default')
+    eye = [[1.0, 0.0, 0.0], [0.0, 1.0, 0.0], [0.0, 0.0, 1.0]]
+    return [base, dict(base, route='transform', transform=eye), dict(base, route='axes', transform=[[2.0 * v for v in r] for r in eye])]
+
+
+def _arg_aliasing(ctx, spec, rng, kind, variants=True):
     """aliasing of the constructor's arguments: the caller keeps C (an ElasticConstants object), the Burgers vector, the
     orientation arrays, the axes m, n and the box, and edits / recycles each of them after the solution was computed:
     no observable of the solution may change (stress = C : strain for the medium that was solved); nothing handed over is
@@ -2355,6 +2394,12 @@ def _arg_aliasing(ctx, spec, rng, kind):
     import atomman as am
     np = _np()
     cls = {'stroh': am.defect.Stroh, 'iso': am.defect.IsotropicVolterraDislocation, 'auto': am.defect.solve_volterra_dislocation}[kind]
+    if variants:
+        # rarely taken branch, always exercised: the un-rotated crystal (two of the three ways of saying so per call)
+        vs = _identity_variants(spec)
+        for v in (vs[0], rng.choice(vs[1:])):
+            if _outcome(v, kind) == 'ok' and not _near_degenerate(build(v, kind)):
+                _arg_aliasing(ctx, v, rng, kind, variants=False)
     C, b, kw = _mutable_args(spec)
     rep = {'op': 'aliasing', 'solver': kind, 'spec': spec}
     snap = _arg_snapshot(C, b, kw)
@@ -2511,12 +2556,21 @@ def _arg_forms(ctx, spec, rng, kind):
     trials.append(('cart_axes as int', (C, b), dict(kw, cart_axes=int(kw['cart_axes']))))
     full = dict(ξ_uvw=None, slip_hkl=None, transform=None, axes=None, box=None, m='x', n='y', cart_axes=False, tol=1e-8)
     full.update(kw)
-    trials.append(('all arguments positional', (C, b) + tuple(full[k_] for k_ in ('ξ_uvw', 'slip_hkl', 'transform', 'axes', 'box', 'm', 'n', 'cart_axes', 'tol')), {}))
     rng.shuffle(trials)
-    for name, args, kws in trials[:10]:
+    trials = trials[:8]
+    # positional calls are always tried, through the class and through the entry point (same documented order)
+    pos_args = (C, b) + tuple(full[k_] for k_ in ('ξ_uvw', 'slip_hkl', 'transform', 'axes', 'box', 'm', 'n', 'cart_axes', 'tol'))
+    trials.append(('all arguments positional', pos_args, {}))
+    entry = am.defect.solve_volterra_dislocation
+    if cls is not entry and type(_call(entry, C, b, **kw)[1]) is type(s0):
+        trials.append(('all arguments positional, through solve_volterra_dislocation', pos_args, {'__entry__': True}))
+    for name, args, kws in trials:
         ctx.stats.case('oracle:arg-form', (kind, name, str(spec['cij']), str(spec['m']), str(spec['n']), str(spec['transform']), str(spec['burgers'])),
                        sample={'op': 'form of the constructor arguments', 'solver': kind, 'form': name})
-        st, s = _call(cls, *args, **kws)
+        if kws.pop('__entry__', False):
+            st, s = _call(entry, *args)
+        else:
+            st, s = _call(cls, *args, **kws)
         if st != 'ok':
             ctx.violate(f'{kind}:argform-raises', f'{kind}: the problem is solved with arrays but with {name}: {st}', dict(rep, form=name))
             continue
@@ -2627,7 +2681,7 @@ def _orientation_oracle(ctx, spec, s):
                 ctx.violate('orientation:axes', f'row {i} of the stored transform is not the normalised axis {ax[i].tolist()}', rep)
     import atomman as am
     if spec['route'] == 'miller':
-        box = am.Box() if spec['box'] is None else am.Box(vects=np.array(spec['box'], dtype=float))
+        box = _mkbox(spec)
         T2 = am.defect.dislocation_system_transform(spec['xi_uvw'], spec['slip_hkl'], m=m, n=n, box=box)
         if float(np.abs(np.asarray(T2) - T).max()) > 1e-13:
             ctx.violate('orientation:utility', 'dislocation_system_transform gives a different matrix than the solver stores: '
@@ -2656,6 +2710,21 @@ def _orientation_oracle(ctx, spec, s):
         ctx.violate('orientation:frame', 'stored m, n, ξ are not the requested axes', rep)
 
 
+def _build_checked(ctx, spec, kind):
+    """build() with every argument as an object the caller keeps: the constructor must not modify any of them."""
+    import atomman as am
+    cls = {'stroh': am.defect.Stroh, 'iso': am.defect.IsotropicVolterraDislocation, 'auto': am.defect.solve_volterra_dislocation}[kind]
+    C, b, kw = _mutable_args(spec)
+    snap = _arg_snapshot(C, b, kw)
+    s = cls(C, b, **kw)
+    after = _arg_snapshot(C, b, kw)
+    mod = [k_ for k_ in snap if snap[k_] != after[k_]]
+    if mod:
+        ctx.violate(f'{kind}:input-modified', f'{kind}: constructing the solution modified its arguments {mod} ({spec["cls"]}, route '
+                    f'{spec["route"]}, ξ_uvw={spec["xi_uvw"]}, slip_hkl={spec["slip_hkl"]})', {'op': 'aliasing', 'solver': kind, 'spec': spec})
+    return s
+
+
 def _guarded(ctx, name, kind, spec, op):
     """an exception that escapes one of the cross-cutting operations is reported with the problem, never a crash."""
     try:
@@ -2674,11 +2743,14 @@ def search(ctx, broken):
     n = ctx.n(21, 280) * mult
     for it in range(n):
         iso = it % 4 == 3
+        # (second pass through the classes: media with tiny symmetry-allowed constants crossed with every value of tol)
+        second = (it // len(CLASSES)) % 2 == 1
         spec = gen_iso_spec(rng) if iso else gen_spec(rng, cls=CLASSES[it % len(CLASSES)], near_identity=it % 5 == 2,
-                                                      four_index=it % 10 == 6)
+                                                      four_index=it % 10 == 6, tiny=True if second else None,
+                                                      tol=[1e-8, 1e-5, 1e-6][(it // len(CLASSES) + it) % 3] if second else None)
         kind = 'iso' if iso else 'stroh'
         try:
-            s = build(spec, kind)
+            s = _build_checked(ctx, spec, kind)
         except ValueError:
             if iso or spec['cls'] not in ('hexagonal', 'tetragonal', 'rhombohedral'):
                 ctx.violate(f'{kind}:refused', f'{kind} solver refused a generic {spec["cls"]} problem (ValueError)',
@@ -2707,7 +2779,7 @@ def search(ctx, broken):
                                         ('aliasing', lambda: _arg_aliasing(ctx, spec, rng, k2)),
                                         ('argforms', lambda: _arg_forms(ctx, spec, rng, k2)),
                                         ('scale', lambda: _scale_sweep(ctx, spec, rng, k2)))):
-            if (it + j) % 3 == 0 or broken:
+            if (it + j) % 3 == 0 or broken or (kind == 'iso' and name in ('forms', 'inplace', 'scale')):
                 _guarded(ctx, name, k2, spec, op)
     _search_refusals(ctx, rng, ctx.n(81, 324) * mult)
     t1 = time.time()
